@@ -25,12 +25,19 @@ pub fn run(tier: &str) -> Result<Report, String> {
         let mut alpha = Alphabet::plain(ctx.nprops(), 3);
         alpha.bi = crate::formulas::ALL_BI.to_vec();
         let mut g = Gen::new(alpha.clone());
-        let fs = g.closed_up_to(m_plain);
+        let mut fs = g.closed_up_to(m_plain);
+        // shapes beyond the node bound: quantifier nests and sub-formulae repeated up to renaming at equal
+        // and different depths, in both orders (a cached result re-used under another variable name must not
+        // leave a dependence on a spare variable behind)
+        let n_bounded = fs.len();
+        fs.extend(crate::formulas::templates(&ctx.user, false, if tier == "quick" { 2 } else { 8 }));
+        fs.extend(crate::formulas::duplicate_templates(ctx.nprops(), if tier == "quick" { 4 } else { 5 }, tier == "quick", false));
+        let n_templates = fs.len() - n_bounded;
         if rep.samples.len() < 4 {
             rep.sample(json!({"network": b.name, "formula": fs[fs.len() / 3].show(&ctx.user), "unit_colours": b.cols.len(), "invalid_parameter_valuations": b.invalid_valuations}));
         }
         sem::sweep(&mut rep, &ctx, &fs, Checks { semantic: false, unit: true, entries: Entries::Plain4 });
-        slices.push(json!({"network": b.name, "plain_max_nodes": m_plain, "formulae": fs.len()}));
+        slices.push(json!({"network": b.name, "plain_max_nodes": m_plain, "formulae": n_bounded, "template_formulae": n_templates}));
         if b.n <= 2 {
             let alpha = Alphabet::extended(ctx.nprops(), 2, 1, 2);
             let mut g = Gen::new(alpha);
@@ -74,6 +81,6 @@ pub fn run(tier: &str) -> Result<Report, String> {
     }
     slices.push(json!({"part": "constrained networks of the all-2-variable family", "networks": n2, "max_nodes": 3, "formulae": fs2.len()}));
     rep.set("slices", json!(slices));
-    rep.rule = "networks of the core family and of the de-duplicated all-2-variable family whose unit set is a strict subset of all parameter valuations x all closed plain formulae (all 9 binary operators) up to plain_max_nodes and extended formulae up to extended_max_nodes: every raw result must be a subset of the unit set and independent of auxiliary variables, every sanitised result must not have more elements/colours than the unit set; distinct_nontrivial counts distinct non-trivial verdict tables of the explored formulae".into();
+    rep.rule = "networks of the core family and of the de-duplicated all-2-variable family whose unit set is a strict subset of all parameter valuations x all closed plain formulae (all 9 binary operators) up to plain_max_nodes, the template families (benchmark formulae, quantifier nests, sub-formulae duplicated up to renaming at equal / different quantifier depths in both orders) and extended formulae up to extended_max_nodes: every raw result must be a subset of the unit set and independent of auxiliary variables, every sanitised result must not have more elements/colours than the unit set; distinct_nontrivial counts distinct non-trivial verdict tables of the explored formulae".into();
     Ok(rep)
 }
